@@ -71,6 +71,10 @@ func runC05(r *an.Run) {
 	// the bytes kept for a file (its source, its printed result) are that file's: not a window into a buffer
 	// that is rewound and filled again for the next file
 	noTransientBufferRetained(r, "R13-kept-bytes-are-not-a-window-into-a-reused-buffer")
+	// the statements in front of the first pattern statement are reproduced once: the implicit leading elision is
+	// added on both sides exactly when the patch does not itself begin with "..." at the patch start
+	c04ImplicitDots(r)
+	relabel(r, "R9-implicit-leading-and-trailing-elision", "R14-the-implicit-elision-is-added-once-on-both-sides")
 }
 
 // astWrites lists stores whose destination is a field of a go/ast (or
